@@ -18,7 +18,7 @@ def main(tier, args):
     t0 = time.time()
     pa, pp, lk = builds()
     quick = tier == "quick"
-    dl = 75 if quick else 1200
+    dl = 70 if quick else 1200
     if os.environ.get("VERIF_DEADLINE_S"):
         dl = min(dl, max(5.0, float(os.environ["VERIF_DEADLINE_S"]) - (time.time() - t0) - 5))
     jobs = []
